@@ -5,6 +5,7 @@ package q
 
 import (
 	"bytes"
+	"io"
 	"sort"
 )
 
@@ -35,3 +36,9 @@ func (Gen[E]) GM() {}
 type I interface{ IM() }
 
 type D int
+
+// W embeds an interface of a package the importers need not import.
+type W interface {
+	io.Writer
+	IM()
+}
